@@ -135,6 +135,19 @@ func (t *c01Tracer) trace(ctx *c01Ctx, e ast.Expr, resIdx int, delta bool, out *
 			}
 			return
 		}
+		// parameter of a function literal (a setter closure handed to a helper): the argument the helper passes,
+		// read in the context of the call that handed the closure over
+		if lit, k := t.funcLitParam(fi, o); lit != nil {
+			n := 0
+			t.closureArgs(fi, lit, k, func(g *FuncInfo, handover *ast.CallExpr, arg ast.Expr) {
+				n++
+				t.trace(&c01Ctx{fi: g, call: handover, up: ctx}, arg, 0, delta, out, seen, depth+1)
+			})
+			if n == 0 {
+				out.set["closure:?"+o.Name()] = true
+			}
+			return
+		}
 		// local: all definitions in fi
 		for _, d := range c01Defs(info, fi.Decl.Body, o) {
 			switch d.tok {
@@ -534,6 +547,27 @@ func c01R4(r *core.R) {
 			switch s := n.(type) {
 			case *ast.AssignStmt:
 				for i, l := range s.Lhs {
+					if star, isStar := ast.Unparen(l).(*ast.StarExpr); isStar {
+						// `*P = v`: P may point at fields of elements (a struct of field pointers, a pointer parameter)
+						var rhs ast.Expr
+						idx := 0
+						if len(s.Rhs) == len(s.Lhs) {
+							rhs = s.Rhs[i]
+						} else if len(s.Rhs) == 1 {
+							rhs, idx = s.Rhs[0], i
+						}
+						if rhs == nil {
+							continue
+						}
+						for _, dest := range t.pointerDests(fi, star.X, map[types.Object]bool{}, 0) {
+							if dest == "Member.Type" {
+								c01MemberType(r, cm, t, fi, s, rhs, memberMapped)
+								continue
+							}
+							check(fi, dest, rhs, idx, s.Tok == token.ADD_ASSIGN || s.Tok == token.SUB_ASSIGN, s.Pos(), src(fs, s))
+						}
+						continue
+					}
 					sel, ok := ast.Unparen(l).(*ast.SelectorExpr)
 					if !ok {
 						continue
